@@ -495,7 +495,27 @@ func evaluatorCtorHelper(prog *Program, a *Anchors, f *ssa.Function) bool {
 // constructor (or to the helper the two constructors share) is that very string, not something computed from it.
 func checkFilterText(r *Run, prog *Program, a *Anchors, pfx string) {
 	n := 0
-	for _, b := range a.CreateFi.Blocks {
+	// CreateFilter and the unexported helpers it is split into
+	fns := []*ssa.Function{a.CreateFi}
+	seenF := map[*ssa.Function]bool{a.CreateFi: true}
+	for i := 0; i < len(fns) && i < 8; i++ {
+		for _, b := range fns[i].Blocks {
+			for _, ins := range b.Instrs {
+				if c, ok := ins.(*ssa.Call); ok {
+					g := c.Call.StaticCallee()
+					if g != nil && !seenF[g] && g != a.CreateEv && prog.InModule(g) && g.Object() != nil && !g.Object().Exported() && prog.ctorHelper(a, g, 0) && !evaluatorCtorHelper(prog, a, g) {
+						seenF[g] = true
+						fns = append(fns, g)
+					}
+				}
+			}
+		}
+	}
+	var blocks []*ssa.BasicBlock
+	for _, f := range fns {
+		blocks = append(blocks, f.Blocks...)
+	}
+	for _, b := range blocks {
 		for _, ins := range b.Instrs {
 			c, ok := ins.(*ssa.Call)
 			if !ok {
